@@ -2,6 +2,7 @@ package props
 
 import (
 	"fmt"
+	"go/constant"
 	"sort"
 	"strings"
 
@@ -154,3 +155,5 @@ func invokeOn(recvSuffix string, methods ...string) eng.Matcher {
 }
 
 func descOf(c *eng.Ctx, v ssa.Value) string { return c.P.Desc(v) }
+
+var constantZero = constant.MakeInt64(0)
